@@ -178,20 +178,33 @@ def normalise_tree(tree):
             for h in getattr(s, 'handlers', []) or []:
                 h.body = fold_loops(h.body)
             nxt = body[i + 1] if i + 1 < len(body) else None
-            if isinstance(s, ast.Assign) and len(s.targets) == 1 and isinstance(s.targets[0], ast.Name) and isinstance(s.value, ast.List) and not s.value.elts \
+            tgt = s.targets[0] if isinstance(s, ast.Assign) and len(s.targets) == 1 else None
+            if tgt is not None and (isinstance(tgt, ast.Name) or (isinstance(tgt, ast.Attribute) and isinstance(tgt.value, ast.Name))) \
+                    and ((isinstance(s.value, ast.List) and not s.value.elts) or (isinstance(s.value, ast.Dict) and not s.value.keys)) \
                     and isinstance(nxt, ast.For) and not nxt.orelse and len(nxt.body) == 1:
-                v = s.targets[0].id
+                key = ast.dump(tgt).replace('Store()', 'Load()')
+
+                def is_v(e):
+                    return isinstance(e, (ast.Name, ast.Attribute)) and ast.dump(e).replace('Store()', 'Load()') == key
+
+                def mentions(e):
+                    return any(is_v(x) for x in ast.walk(e))
                 inner = nxt.body[0]
                 cond = []
                 if isinstance(inner, ast.If) and not inner.orelse and len(inner.body) == 1:
                     cond = [inner.test]
                     inner = inner.body[0]
-                if isinstance(inner, ast.Expr) and isinstance(inner.value, ast.Call) and isinstance(inner.value.func, ast.Attribute) and inner.value.func.attr == 'append' \
-                        and isinstance(inner.value.func.value, ast.Name) and inner.value.func.value.id == v and len(inner.value.args) == 1 \
-                        and not any(isinstance(x, ast.Name) and x.id == v for x in ast.walk(inner.value.args[0])) \
-                        and not any(isinstance(x, ast.Name) and x.id == v for x in ast.walk(nxt.iter)) \
-                        and not any(isinstance(x, ast.Name) and x.id == v for t in cond for x in ast.walk(t)):
+                comp = None
+                if isinstance(s.value, ast.List) and isinstance(inner, ast.Expr) and isinstance(inner.value, ast.Call) and isinstance(inner.value.func, ast.Attribute) \
+                        and inner.value.func.attr == 'append' and is_v(inner.value.func.value) and len(inner.value.args) == 1 and not inner.value.keywords \
+                        and not mentions(inner.value.args[0]) and not mentions(nxt.iter) and not any(mentions(t) for t in cond):
                     comp = ast.ListComp(elt=inner.value.args[0], generators=[ast.comprehension(target=nxt.target, iter=nxt.iter, ifs=cond, is_async=0)])
+                elif isinstance(s.value, ast.Dict) and isinstance(inner, ast.Assign) and len(inner.targets) == 1 and isinstance(inner.targets[0], ast.Subscript) \
+                        and is_v(inner.targets[0].value) and not mentions(inner.targets[0].slice) and not mentions(inner.value) \
+                        and not mentions(nxt.iter) and not any(mentions(t) for t in cond):
+                    # `d = {}` then `for t in it: d[k] = v`  ->  `d = {k: v for t in it}` (later keys win in both)
+                    comp = ast.DictComp(key=inner.targets[0].slice, value=inner.value, generators=[ast.comprehension(target=nxt.target, iter=nxt.iter, ifs=cond, is_async=0)])
+                if comp is not None:
                     new = ast.Assign(targets=s.targets, value=comp)
                     ast.copy_location(new, nxt)
                     ast.copy_location(comp, nxt)
